@@ -421,11 +421,38 @@ impl Drop for Scratch {
     }
 }
 
+/// hang detection for every L1 check: what each worker directory is loading, and since when
+pub static IN_FLIGHT: std::sync::Mutex<Vec<(String, std::time::Instant, String)>> = std::sync::Mutex::new(Vec::new());
+
+pub fn start_watchdog(pid: &'static str) {
+    std::thread::spawn(move || loop {
+        std::thread::sleep(std::time::Duration::from_millis(500));
+        let stuck: Vec<String> = IN_FLIGHT.lock().unwrap().iter().filter(|(_, t, _)| t.elapsed().as_secs() >= 30).map(|(_, _, d)| d.clone()).collect();
+        if !stuck.is_empty() {
+            let root = vmodel::report::verif_root().join("replays").join(pid);
+            let _ = std::fs::create_dir_all(&root);
+            let f = root.join("hang.txt");
+            let _ = std::fs::write(&f, stuck.join("\n"));
+            println!("VIOLATION property={pid} replay={}", f.display());
+            eprintln!("  key: {pid}: loading does not terminate (30 s) :: {}", vmodel::report::truncate(&stuck[0], 600));
+            std::process::exit(1);
+        }
+    });
+}
+
 pub fn run_project(p: &Project, dir: &Path, o: WriteOpts) -> Outcome {
     if let Err(e) = p.materialise(dir, o) {
         vmodel::report::machinery_fail(&format!("cannot materialise project in {}: {e}", dir.display()));
     }
-    parse_dir(dir)
+    let key = dir.display().to_string();
+    {
+        let mut g = IN_FLIGHT.lock().unwrap();
+        g.retain(|(k, _, _)| *k != key);
+        g.push((key.clone(), std::time::Instant::now(), p.describe()));
+    }
+    let r = parse_dir(dir);
+    IN_FLIGHT.lock().unwrap().retain(|(k, _, _)| *k != key);
+    r
 }
 
 pub fn build_format() -> Format {
